@@ -16,6 +16,9 @@ use crate::strings::any_string;
 pub const POOL: &[&str] = &[
     "", "a", "b", "c", "A", "x", "p", "q", "xml", "xmlns", "space", "id", "lang", " ", "a b", "a:b", "é",
     "\u{1F600}", "urn:a", "urn:b", "urn:c", XML_NS, "http://www.w3.org/1999/xhtml", "n0", "n1",
+    // strings that read like undecoded attribute text (seed C08i: a declaration written with
+    // exactly this text denotes the DECODED value, whatever the table holds already)
+    "&amp;x", "&#x75;rn:a", "&x",
 ];
 
 // ---------------------------------------------------------------------------------------------
@@ -358,11 +361,40 @@ fn exhaustive(maxlen: usize, bank: &Bank, fails: &mut Fails, sink: &mut Sink) {
     }
 }
 
+/// Namespaces registered beforehand whose text reads like undecoded attribute text, then documents
+/// whose declarations are written with exactly that text (seed C08i).
+fn raw_text_histories(bank: &Bank, fails: &mut Fails, sink: &mut Sink) {
+    let cases: &[(&str, &str, &str)] = &[
+        ("urn:x?a=1&amp;b=2", "urn:x?a=1&b=2", "<d xmlns=\"urn:x?a=1&amp;b=2\"><p:e xmlns:p=\"urn:x?a=1&#38;b=2\"/></d>"),
+        ("&amp;x", "&x", "<a xmlns:p=\"&amp;x\" xmlns:q=\"&#x75;rn:a\"><p:b/><q:b/></a>"),
+        ("urn:a\tb", "urn:a b", "<a xmlns:p=\"urn:a\tb\"><p:b p:c=\"\"/></a>"),
+        ("&#x75;rn:a", "urn:a", "<p:a xmlns:p=\"&#x75;rn:a\" xmlns:q=\"urn:a\" q:b=\"\"/>"),
+    ];
+    for (raw, value, doc) in cases {
+        for pre in 0..3 {
+            let mut h = Hist::new(bank, fails, sink);
+            match pre {
+                0 => { h.add_namespace(raw); }
+                1 => { h.add_namespace(raw); h.add_namespace(value); }
+                _ => { h.parse_text(&format!("<w xmlns=\"{}\"/>", raw.replace('&', "&amp;").replace('\t', "&#9;")), false); }
+            }
+            h.parse_text(doc, false);
+            h.ro_namespace(raw);
+            h.ro_namespace(value);
+            h.ro_name("e", 0, true);
+            h.ro_name("b", 0, true);
+            h.final_check();
+            h.sink.stat("rawtext.histories");
+        }
+    }
+}
+
 pub fn run(seed: u64, count: usize, tier: &str, sink: &mut Sink) {
     let mut rng = Rng::new(seed ^ 0x1D3A9);
     let bank = Bank::new();
     let mut fails = Fails::new();
     long_history(&bank, &mut fails, sink);
+    raw_text_histories(&bank, &mut fails, sink);
     if tier == "thorough" {
         exhaustive(4, &bank, &mut fails, sink);
     }
